@@ -35,7 +35,10 @@ def _unwrap(e):
 
 
 class ElemExec:
-    def __init__(self, tu, where="", consts: dict | None = None, max_inline=3, null_pointers=(), nonnull_pointers=(), opaque=(), opaque_out: dict | None = None):
+    def __init__(self, tu, where="", consts: dict | None = None, max_inline=3, null_pointers=(), nonnull_pointers=(), opaque=(), opaque_out: dict | None = None, call_hook=None, opaque_merge=False):
+        self.call_hook = call_hook  # call_hook(callee name, inlined value, state) -> replacement value | None
+        self.opaque_merge = opaque_merge  # a scalar assigned under a data-dependent condition becomes a fresh opaque symbol afterwards (instead of having no value)
+        self._fresh = 0
         self.opaque = set(opaque)  # callees kept as uninterpreted functions of their arguments
         self.opaque_out = dict(opaque_out or {})  # void callees that fill an array: name -> position of that array
         self.null_pointers = set(null_pointers)  # pointer parameters assumed NULL: `if (p)` takes the else arm
@@ -264,6 +267,10 @@ class State:
                 sub = self.ex.function(nm, sc, al, self.depth + 1, cells=shared, prefix=pf)
                 if sub.ret is None:
                     raise AnalysisError(f"{self.ex.where}::{self.fname}: inlined {nm} returns no value")
+                if self.ex.call_hook is not None:
+                    r_ = self.ex.call_hook(nm, sub.ret, self)
+                    if r_ is not None:
+                        return r_
                 return sub.ret
             raise AnalysisError(f"{self.ex.where}::{self.fname}: call of '{nm}' has no symbolic meaning")
         raise AnalysisError(f"{self.ex.where}::{self.fname}: expression kind {k}: {cast.text(e)}")
@@ -382,6 +389,32 @@ class State:
             return sp.Function(name)(d)
         raise AnalysisError(f"{self.ex.where}::{self.fname}: condition '{cast.text(e)[:50]}' has no indicator form")
 
+    def _decide(self, c):
+        """truth of a condition whose operands are numbers (unrolled loop variables, literals), None otherwise;
+        && and || short-circuit"""
+        c = _unwrap(c)
+        k, op = c.get("kind"), c.get("opcode")
+        if k == "UnaryOperator" and op == "!":
+            t = self._decide(cast.kids(c)[0])
+            return None if t is None else not t
+        if k == "BinaryOperator" and op in ("&&", "||"):
+            a_, b_ = cast.kids(c)
+            ta = self._decide(a_)
+            if ta is not None and ta == (op == "||"):
+                return ta
+            tb = self._decide(b_)
+            if ta is None:
+                return tb if (tb is not None and tb == (op == "||")) else None
+            return tb
+        if k == "BinaryOperator" and op in ("==", "!=", "<", ">", "<=", ">="):
+            try:
+                a_, b_ = (self.expr(x) for x in cast.kids(c))
+            except AnalysisError:
+                return None
+            if a_.is_number and b_.is_number:
+                return bool({"==": a_ == b_, "!=": a_ != b_, "<": a_ < b_, ">": a_ > b_, "<=": a_ <= b_, ">=": a_ >= b_}[op])
+        return None
+
     def block(self, stmts) -> bool:
         pushed = 0
         try:
@@ -451,18 +484,12 @@ class State:
                         return True
                     continue
                 # a condition over literal / unrolled values is decided on the spot
-                cc = _unwrap(ks[0])
-                if cc.get("kind") == "BinaryOperator" and cc.get("opcode") in ("==", "!=", "<", ">", "<=", ">="):
-                    try:
-                        a_, b_ = (self.expr(x) for x in cast.kids(cc))
-                    except AnalysisError:
-                        a_ = b_ = None
-                    if a_ is not None and a_.is_number and b_.is_number:
-                        truth = {"==": a_ == b_, "!=": a_ != b_, "<": a_ < b_, ">": a_ > b_, "<=": a_ <= b_, ">=": a_ >= b_}[cc.get("opcode")]
-                        arm = ks[1] if truth else (ks[2] if len(ks) > 2 else None)
-                        if arm is not None and self.block([arm]):
-                            return True
-                        continue
+                truth = self._decide(ks[0])
+                if truth is not None:
+                    arm = ks[1] if truth else (ks[2] if len(ks) > 2 else None)
+                    if arm is not None and self.block([arm]):
+                        return True
+                    continue
                 # data-dependent condition: indicator factors on the accumulations it encloses
                 then = ks[1]
                 els = ks[2] if len(ks) > 2 else None
@@ -486,6 +513,9 @@ class State:
                         pass
                     elif nm_ in before and before[nm_] is not v_ and self.level.get(nm_) == len(self.loopvars) and not isinstance(v_, sp.Basic):
                         del self.scalars[nm_]
+                    elif self.ex.opaque_merge and nm_ in before and before[nm_] is not v_:
+                        self.ex._fresh += 1
+                        self.scalars[nm_] = sp.Symbol(f"{nm_}@merge{self.ex._fresh}")
                 continue
             if k == "CallExpr":
                 nm = cast.callee_name(s)
@@ -495,7 +525,7 @@ class State:
                     # a void helper of the same file: inline it; `&x` arguments are scalar results, rows of the caller's
                     # arrays are arrays with leading subscripts
                     callee = self.ex.tu.functions[nm]
-                    sc, al, pf, ptr, back = {}, {}, {}, {}, {}
+                    sc, al, pf, ptr, back, local_name, shared_ = {}, {}, {}, {}, {}, {}, {}
                     for p_, a in zip(cast.params(callee), ks[1:]):
                         qt = cast.qtype(p_)
                         ua = _unwrap(a)
@@ -507,21 +537,32 @@ class State:
                             if ua.get("kind") == "DeclRefExpr":
                                 an = ua["referencedDecl"]["name"]
                                 if an in self.cells and an not in self.alias:
-                                    raise AnalysisError(f"{self.ex.where}::{self.fname}: local array '{an}' handed to the void helper {nm} is not modelled")
+                                    shared_[p_["name"]] = self.cells[an]  # a local array the caller filled: the helper sees its cells
                                 al[p_["name"]] = self.alias.get(an, an)
+                                local_name[p_["name"]] = an
                                 if an in self.prefix:
                                     pf[p_["name"]] = self.prefix[an]
                             elif ua.get("kind") == "ArraySubscriptExpr":
                                 b_, pre = self.base_and_idx(ua)
                                 al[p_["name"]] = self.alias.get(b_, b_)
+                                local_name[p_["name"]] = b_
                                 pf[p_["name"]] = pre
                             else:
                                 raise AnalysisError(f"{self.ex.where}::{self.fname}: array argument '{cast.text(a)}' of {nm}")
                         else:
                             sc[p_["name"]] = self.expr(a)
-                    sub = self.ex.function(nm, sc, al, self.depth + 1, prefix=pf, pointers=ptr)
-                    if any(b for b in sub.cells if b not in sub.local_arrays):
-                        raise AnalysisError(f"{self.ex.where}::{self.fname}: the void helper {nm} writes arrays of its caller ({sorted(sub.cells)}): not modelled")
+                    sub = self.ex.function(nm, sc, al, self.depth + 1, prefix=pf, pointers=ptr, cells=shared_)
+                    for b in sub.cells:
+                        if b in sub.local_arrays:
+                            continue
+                        if b not in local_name or self.guards:
+                            raise AnalysisError(f"{self.ex.where}::{self.fname}: the void helper {nm} writes arrays of its caller ({sorted(sub.cells)}): not modelled")
+                        # the helper filled (part of) an array of the caller: its cells, with the caller's leading
+                        # subscripts already in place (prefix), become cells of that array
+                        if b in shared_:
+                            self.cells[local_name[b]] = list(sub.cells[b])
+                        else:
+                            self.cells.setdefault(local_name[b], []).extend(sub.cells[b])
                     for pn, x in back.items():
                         if "*" + pn in sub.scalars:
                             self.scalars[x] = sub.scalars["*" + pn]
